@@ -11,4 +11,18 @@ MUTANTS = [
      "                fp.write(subline + (self.cont if save else \"\") + \"\\n\")"),
     ("C13", "plus-directive-keeps-minus", "shroud/util.py", "self.write_continue(fp, subline[1:-1], spaces)", "self.write_continue(fp, subline[1:], spaces)"),
     ("C13", "deindent-once", "shroud/util.py", "                        while subline[0] == \"-\":", "                        if subline[0] == \"-\":"),
+    # ---------------- C12
+    ("C12", "reader-strip", "shroud/splicer.py", "save.append(line.rstrip())", "save.append(line.strip())"),
+    ("C12", "default-before-user", "shroud/util.py",
+     "        elif name in self.splicer_stack[-1]:\n            code = self.splicer_stack[-1][name]\n            out.extend(code)\n        elif default is not None:\n            out.extend(default)",
+     "        elif default is not None:\n            out.extend(default)\n        elif name in self.splicer_stack[-1]:\n            code = self.splicer_stack[-1][name]\n            out.extend(code)"),
+    ("C12", "pop-keeps-path", "shroud/util.py",
+     "        if self.splicer_names:\n            self.splicer_path = \".\".join(self.splicer_names) + \".\"\n        else:\n            self.splicer_path = \"\"",
+     "        if not self.splicer_names:\n            self.splicer_path = \"\""),
+    ("C12", "user-code-truncated-to-20-lines", "shroud/util.py", "            out.extend(code)\n", "            out.extend(code[:2])\n"),
+    ("C12", "decl-splicer-loses-to-splicer_code", "shroud/wrapf.py", "        if \"f\" in node.splicer:", "        if \"f\" in node.splicer and sname not in self.splicer_stack[-1]:"),
+    ("C12", "reader-drops-leading-blank-lines", "shroud/splicer.py", "                    save.append(line.rstrip())", "                    if save or line.strip():\n                        save.append(line.rstrip())"),
+    ("C12", "reader-end-tag-any", "shroud/splicer.py", "                    if begin_tag != end_tag:", "                    if False:"),
+    ("C12", "nested-top-not-reset", "shroud/splicer.py", "                    top[begin_subtag] = save\n                    top = out", "                    top[begin_subtag] = save"),
+    ("C12", "revert-splicer_code-merge", "shroud/main.py", "util.update(splicers, allinput[\"splicer_code\"])", "splicers.update(allinput[\"splicer_code\"])"),
 ]
